@@ -169,8 +169,9 @@ STRATEGY_TAILS = [
 def c03(res: Result):
     q = res.tier == Q
     rng = random.Random(res.seed + 3)
-    ops = ["exp", "bfs", "dfs", "min", "aseeds", "skiprem", "skipmin"]
-    recs = run_mc(res, "min", ops, 2, [0, 2, 3], [1000], ["Inv_WF", "Inv_MinExact", "Inv_PartialFaithful"], 1)
+    ops = ["exp", "bfs", "dfs", "min", "aseeds", "skiprem", "skipmin", "block"]
+    recs = run_mc(res, "min", ops, 2, [0, 2, 3], [1000], ["Inv_WF", "Inv_MinExact", "Inv_PartialFaithful", "Inv_ASeedsSound"], 1)
+    recs = [r for r in recs if not any(h[0] == "block" for h in r["hist"])]      # (block histories are run from the random workload)
     tasks = []
     sample = rng.sample(recs, min(len(recs), 1200 if q else 12000))
     for i, r in enumerate(sample):
@@ -209,6 +210,8 @@ def c14(res: Result):
     rng = random.Random(res.seed + 14)
     ops = ["exp", "bfs", "skipmin", "skiprem", "min", "cand", "seeds", "sets", "reclaim"]
     recs = run_mc(res, "cache", ops, 2, [2], [1000], ["Inv_WF", "Inv_CacheFresh", "Inv_PartialFaithful"], 2)
+    # block expansion (source shortcut, clean-block verdicts for every allowed oracle answer) followed by queries
+    run_mc(res, "block", ["block", "seeds", "cand", "sets"], 3, [2], [1000], ["Inv_WF", "Inv_CacheFresh", "Inv_PartialFaithful", "Inv_ASeedsSound", "Inv_Seeds"], None)
     recs = [r for r in recs if any(h[0] in ("cand", "seeds", "sets") for h in r["hist"][:-1])]
     if not q:
         r3 = run_mc(res, "cache3", ["exp", "skipmin", "skiprem", "seeds", "sets", "reclaim"], 2, [], [1000],
@@ -225,6 +228,19 @@ def c14(res: Result):
                                 [{"op": "seeds", "n": 1}, {"op": "block", "maa": True, "optsrc": True, "exact": False, "size": -1}],
                                 [{"op": "exp", "n": 1}, {"op": "seeds", "n": 2}, {"op": "seeds", "n": 3}, {"op": "block", "maa": False, "optsrc": True, "exact": False, "size": -1}]])
     tasks += feature_tasks("f", None, rng=rng, hist=(kinds, (3, 7), [], 2 if q else 8))
+    # attractor data on unexpanded inner nodes, then a strategy that gives them successors without _expand_one_node
+    pats = []
+    for tail in ([{"op": "scc", "maa": False}], [{"op": "scc", "maa": True}],
+                 [{"op": "block", "maa": True, "optsrc": True, "exact": False, "size": -1}],
+                 [{"op": "min", "n": 1, "size": -1, "skip": True}], [{"op": "skiprem"}]):
+        pats.append([{"op": "exp", "n": 1}] + [{"op": "seeds", "n": k} for k in (2, 3, 4, 5)] + tail + [{"op": "expseeds"}])
+        pats.append([{"op": "bfs", "n": 1, "lvl": 1, "size": -1}] + [{"op": "sets", "n": k} for k in (3, 5, 6, 8)] + tail + [{"op": "expseeds"}])
+    tasks += feature_tasks("fp", pats, kinds=["modules", "new_source", "deep", "maa"], max_n=6)
+    tasks += gadget_tasks("gp", pats, only=["xnor_latch", "xnor_2latch", "src_gate", "newsrc", "doc", "c14", "nscc", "nscc_latch", "nscc2"])
+    for tail in ([{"op": "scc", "maa": False}], [{"op": "scc", "maa": True}]):
+        deep = [[{"op": "bfs", "n": 1, "lvl": 1, "size": -1}] + [{"op": rng.choice(["seeds", "sets", "cand"]), "n": k} for k in range(2, 14)] + tail + [{"op": "expseeds"}],
+                [{"op": "exp", "n": 1}, {"op": "exp", "n": 2}] + [{"op": "seeds", "n": k} for k in range(2, 10)] + tail + [{"op": "expseeds"}]]
+        tasks += gadget_tasks("gq", deep, only=["nscc_latch", "nscc2"])
     invs = ["Inv_CACHE", "Inv_CacheFresh", "Inv_OUT"]
     res.cov["rule"] = ("Histories interleaving attractor queries (candidates / seeds / sets, also on unexpanded nodes) with every way of giving "
                        "a node successors (single expansion, BFS/DFS, minimal-space with skip_ignored, skip_to_minimal, skip_remaining, block with "
@@ -251,7 +267,8 @@ COMPLETE_DEFAULT = [[{"op": "build"}],
 def c01(res: Result):
     q = res.tier == Q
     rng = random.Random(res.seed + 1)
-    recs = run_mc(res, "seeds", ["bfs", "dfs", "aseeds", "seeds"], 3 if q else 4, [], [1000], ["Inv_WF", "Inv_Seeds", "Inv_CacheFresh"], None)
+    recs = run_mc(res, "seeds", ["bfs", "dfs", "aseeds", "block", "seeds"], 3 if q else 4, [], [1000],
+                  ["Inv_WF", "Inv_Seeds", "Inv_CacheFresh", "Inv_ASeedsSound"], None)
     tasks = []
     nets2 = list(bn.all_networks(2))
     for i, tt in enumerate(nets2 if not q else rng.sample(nets2, 128)):
@@ -295,6 +312,12 @@ def c05(res: Result):
     tasks += gadget_tasks("g", [[{"op": "exp", "n": 1}, {"op": "skiprem"}, {"op": "allseeds"}],
                                 [{"op": "skiprem"}, {"op": "allseeds"}],
                                 [{"op": "bfs", "n": 1, "lvl": 0, "size": -1}, {"op": "skipmin", "n": 2}, {"op": "skiprem"}, {"op": "allseeds"}]])
+    stub_q = [[{"op": "bfs", "n": 1, "lvl": 0, "size": -1}] + [{"op": o, "n": k} for k in (2, 3, 4, 5) for o in ("cand",)]
+              + [{"op": "min", "n": 1, "size": -1, "skip": True}, {"op": "skiprem"}, {"op": "allseeds"}],
+              [{"op": "exp", "n": 1}] + [{"op": "seeds", "n": k} for k in (2, 3, 4)] + [{"op": "skiprem"}, {"op": "allseeds"}],
+              [{"op": "exp", "n": 1}] + [{"op": "cand", "n": k} for k in (2, 3, 4)] + [{"op": "skipmin", "n": 2}, {"op": "skipmin", "n": 3}, {"op": "skiprem"}, {"op": "allseeds"}]]
+    tasks += feature_tasks("fq", stub_q)
+    tasks += gadget_tasks("gq", stub_q)
     tasks += feature_tasks("f", [[{"op": "exp", "n": 1}, {"op": "skiprem"}, {"op": "allseeds"}],
                                  [{"op": "bfs", "n": 1, "lvl": 1, "size": -1}, {"op": "skiprem"}, {"op": "allseeds"}],
                                  [{"op": "exp", "n": 1}, {"op": "seeds", "n": 1}, {"op": "skipmin", "n": 2}, {"op": "skipmin", "n": 3}, {"op": "skiprem"}, {"op": "allseeds"}],
